@@ -8,6 +8,10 @@
 (*           (enumerated by SvmSchedule.tla and injected, or drawn by the  *)
 (*           seeded generator and injected, or left to the real RNG)       *)
 (*   SvrFit  one fit of the regressor                                      *)
+(*   SvcBatch / SvrBatch  a fit followed by ONE decision_function /        *)
+(*           predict call on B query rows (B on a ladder around 64, 128,   *)
+(*           256, 512, 1024 and a few thousand) and by the same rows       *)
+(*           evaluated in blocks of <= 64 rows                             *)
 (*   K       one evaluation K(x,z), K(z,x), K(x,x)                         *)
 (*   Gram    one Gram matrix of a small point set                          *)
 (*                                                                         *)
@@ -56,6 +60,8 @@ SvcTags(e) ==
     {"SvcFit", "Svc_" \o e.in.kernel.name}
     \cup (IF e.src = "sched" THEN {"SvcSched"} ELSE IF e.src = "unseeded" THEN {"SvcUnseeded"} ELSE {"SvcRand"})
     \cup (IF ~IsSchedule(e.in.sched, Len(e.in.X), e.in.epochs) THEN {"BadSchedule"} ELSE {})
+    \cup (IF e.in.api THEN {"SvcApi"} ELSE {})            \* fitted / predicted through the api traits
+    \cup (IF Len(e.in.X) >= 129 THEN {"SvcLarge"} ELSE {})
     \cup (IF e.status = "ok"
           THEN (IF Len(e.in.sched) > 0 /\ e.out.left # 0 THEN {"Drift"} ELSE {})
                \cup (IF e.out.finite /\ e.out.wok /\ HasAtBound(e.out.w16, e.in.C16, 2) /\ HasStrictlyInside(e.out.w16, e.in.C16, 2)
@@ -105,6 +111,8 @@ YRange(y16) == SeqMax(y16) - SeqMin(y16)
 
 SvrTags(e) ==
     {"SvrFit", "Svr_" \o e.in.kernel.name}
+    \cup (IF e.in.api THEN {"SvrApi"} ELSE {})
+    \cup (IF Len(e.in.X) >= 91 /\ e.status = "ok" /\ 2 * Len(e.out.sv) >= Len(e.in.X) THEN {"SvrLargeDense"} ELSE {})
     \cup (IF YRange(e.in.y16) <= 2 * e.in.eps16 THEN {"SvrNarrowBand"} ELSE {})
     \cup (IF YRange(e.in.y16) <= 2 * e.in.eps16 /\ YRange(e.in.y16) > e.in.eps16 THEN {"SvrBandSkewed"} ELSE {})
     \cup (IF YRange(e.in.y16) = 0 THEN {"SvrConstantTargets"} ELSE {})
@@ -124,6 +132,56 @@ SvrTags(e) ==
                         /\ KqRootChecked(e.in.kernel, e.out.sv, e.out.kq, e.in.X \o e.in.Q)
                      THEN {"FitRootClosed"} ELSE {})
           ELSE IF e.status # "ok" THEN {"SvrNoResult"} ELSE {})
+
+(* ---------------------------------------------------------------------- *)
+(* batch evaluation                                                        *)
+(*                                                                         *)
+(* The decision function "equals sum_i w_i K(sv_i, x) + b": a function of  *)
+(* the query row alone.  Hence the value a row receives cannot depend on   *)
+(* how many rows are passed in the same call or on the row's position in   *)
+(* the call.  The event carries the values of ONE call on all B rows (fbq) *)
+(* and of the same rows evaluated in small blocks (fcq), both in fixed     *)
+(* point at the largest scale 2^bs that keeps every value below 2^30       *)
+(* (relative resolution 2^-30 -- far coarser than a re-association of the  *)
+(* floating-point sum, far finer than any wrong term).  Clauses:           *)
+(*   BatchConsistent  one value per row, |fbq[j] - fcq[j]| <= 1 for all j  *)
+(*   BatchLabelOK     (classifier) the label of every row of the big call  *)
+(*                    is the larger class iff its decision value is > 0    *)
+(* and, through the ordinary clauses, ExpansionOK / LabelOK on the sampled *)
+(* rows Q (block boundaries and random positions), whose recorded values   *)
+(* are taken out of the big call.  O(B) for TLC, no model recomputation.   *)
+(* ---------------------------------------------------------------------- *)
+BatchConsistent(i, b) ==
+    /\ b.bok
+    /\ Len(b.fbq) = Len(i.batch.rows) /\ Len(b.fcq) = Len(i.batch.rows)
+    /\ \A j \in 1..Len(b.fbq) : Abs(b.fbq[j] - b.fcq[j]) <= 1
+
+BatchLabelOK(i, b) ==
+    /\ b.pint /\ Len(b.fsb) = Len(i.batch.rows)
+    /\ LabelOK(i.y, b.fsb, b.pb)
+
+(* harness sanity: Q is the sample of the batch rows it claims to be *)
+BatchWellFormed(i) ==
+    /\ Len(i.Q) = Len(i.batch.sample)
+    /\ \A s \in 1..Len(i.Q) : i.batch.sample[s] + 1 \in 1..Len(i.batch.rows)
+                                /\ i.Q[s] = i.batch.rows[i.batch.sample[s] + 1]
+
+SvcBatchVerdict(e) ==
+    IF SvcVerdict(e) # "" THEN SvcVerdict(e)
+    ELSE IF ~BatchConsistent(e.in, e.out.batch) THEN "BatchConsistent"
+    ELSE IF ~BatchLabelOK(e.in, e.out.batch) THEN "BatchLabelOK"
+    ELSE ""
+
+SvrBatchVerdict(e) ==
+    IF SvrVerdict(e) # "" THEN SvrVerdict(e)
+    ELSE IF e.status = "ok" /\ ~BatchConsistent(e.in, e.out.batch) THEN "BatchConsistent"
+    ELSE ""
+
+BatchTags(e, name) ==
+    {name}
+    \cup (IF Len(e.in.batch.rows) > 256 THEN {name \o "Over256"} ELSE {})
+    \cup (IF Len(e.in.batch.rows) > 1024 THEN {name \o "Over1024"} ELSE {})
+    \cup (IF ~BatchWellFormed(e.in) THEN {"BadBatch"} ELSE {})
 
 (* ---------------------------------------------------------------------- *)
 (* kernels                                                                 *)
@@ -202,17 +260,23 @@ HitNames == {"SvcFit", "Svc_linear", "Svc_rbf", "Svc_poly", "Svc_sigmoid", "SvcS
              "K_linear", "K_rbf", "K_poly", "K_sigmoid", "KSkipped", "RbfTaylor", "SigTaylor",
              "KRoot2", "KRoot4", "KRootUndefined", "FitRootClosed",
              "SvrNarrowBand", "SvrBandSkewed", "SvrConstantTargets", "SvrNoSv", "SvrNoSvKKT",
+             "SvcApi", "SvrApi", "SvcLarge", "SvrLargeDense", "BadBatch",
+             "SvcBatch", "SvcBatchOver256", "SvcBatchOver1024", "SvrBatch", "SvrBatchOver256", "SvrBatchOver1024",
              "Gram_linear", "Gram_rbf", "Gram_sigmoid", "Gram_poly", "RbfFunctional", "SigAddition", "GramSingular",
              "Unknown"}
 
 Verdict(e) == CASE e.ev = "SvcFit" -> SvcVerdict(e)
                 [] e.ev = "SvrFit" -> SvrVerdict(e)
+                [] e.ev = "SvcBatch" -> SvcBatchVerdict(e)
+                [] e.ev = "SvrBatch" -> SvrBatchVerdict(e)
                 [] e.ev = "K" -> KVerdict(e)
                 [] e.ev = "Gram" -> GramVerdict(e)
                 [] OTHER -> "unknown event"
 
 Tags(e) == CASE e.ev = "SvcFit" -> SvcTags(e)
              [] e.ev = "SvrFit" -> SvrTags(e)
+             [] e.ev = "SvcBatch" -> SvcTags(e) \cup BatchTags(e, "SvcBatch")
+             [] e.ev = "SvrBatch" -> SvrTags(e) \cup BatchTags(e, "SvrBatch")
              [] e.ev = "K" -> KTags(e)
              [] e.ev = "Gram" -> GramTags(e)
              [] OTHER -> {"Unknown"}
